@@ -77,15 +77,20 @@ def record(seed, n, out_path):
                     "seq": ts if ln <= 8 else None})
     # order independence for values of subclasses of the built-in kinds (reading: only
     # permutation invariance is demanded there)
-    subs = [A.IntSub(4), A.FloatSub(1.5), A.StrSub("s"), A.DateSub(2020, 2, 2)]
-    plain = [1, 2.5, "a", A.concrete("date", 1), True, None]
-    for s in subs:
+    from datetime import datetime as _dtm
+    subs = [(A.IntSub(4), 4), (A.FloatSub(1.5), 1.5), (A.StrSub("s"), "s"), (A.DateSub(2020, 2, 2), A.concrete("date", 1)),
+            (A.DatetimeSub(2020, 2, 2, 3, 4), _dtm(2020, 2, 2, 3, 4))]
+    plain = [1, 2.5, "a", A.concrete("date", 1), _dtm(2021, 1, 1, 1), True, None]
+    for s, basev in subs:
         for p in plain:
             for q in plain:
                 base = [s, p, q]
                 res = []
                 for perm in itertools.permutations(base):
                     res.append(dt_abs(infer_dtype(list(perm))))
+                # a value of a subclass counts as a value of its built-in base class (a datetime subclass is a datetime,
+                # not "a date"): the dtype is the one inferred with the plain base value in its place
+                res.append(dt_abs(infer_dtype([basev, p, q])))
                 eid += 1
                 evs.append({"id": eid, "op": "perm", "dtypes": res, "values": [repr(x) for x in base]})
     with open(out_path, "w") as f:
